@@ -242,7 +242,11 @@ func TestAny(t *testing.T) {
 		Draw: func(t *rapid.T) anyCase {
 			c := anyCase{Type: gen.TypeName(anyTypes, anyRich).Draw(t, "type"), Prefix: rapid.SampledFrom(prefixes).Draw(t, "prefix"), Adv: rapid.SampledFrom(advKinds).Draw(t, "adv")}
 			md := corpus.ByName(c.Type).Descriptor()
-			c.M = gen.DrawMessage(t, md, gen.DefaultMsgOpts)
+			mo := gen.DefaultMsgOpts
+			if rapid.IntRange(0, 9).Draw(t, "partial?") == 6 {
+				mo.FillRequired = false // uninitialised messages go through MarshalFrom/UnmarshalTo/UnmarshalNew with AllowPartial
+			}
+			c.M = gen.DrawMessage(t, md, mo)
 			po := gen.DefaultMsgOpts
 			po.Depth, po.MaxFields = 1, 4
 			c.Pre = gen.DrawMessage(t, md, po)
